@@ -407,6 +407,114 @@ def run_big(ctx, d, k0):
     ctx.extra["big_transitions_observed"] = seen
 
 
+def history_pass(ctx, d, rng, tag):
+    """state carried between calls in ONE process: several collections as groups of ONE file renamed alternately,
+    through long-lived and fresh Cooler objects; the same path overwritten with other chromosome names / another
+    number of bins, deleted and re-created; one rename-map dict reused for two calls.  After every step every live
+    collection is judged for what is stored NOW (own bookkeeping: the maps applied in sequence to the FILE's names)."""
+    import cooler
+    fn = os.path.join(d, f"hist{tag}.cool")
+    live = {}                                   # group path -> (cooler case, current names)
+
+    def make(grp, c, mode):
+        bins = pd.DataFrame(c["bins"], columns=["chrom", "start", "end"])
+        px = pd.DataFrame({"bin1_id": np.array([p[0] for p in c["pixels"]], dtype=np.int64),
+                           "bin2_id": np.array([p[1] for p in c["pixels"]], dtype=np.int64),
+                           "count": np.array([p[2] for p in c["pixels"]], dtype=np.int64)})
+        cooler.create_cooler(fn + "::" + grp, bins, px, mode=mode)
+        if mode == "w":
+            live.clear()
+        live[grp] = (c, list(c["names"]))
+
+    def rename(obj, grp, m):
+        o, _ = G.guarded(cooler.rename_chroms, obj, m)
+        c, names = live[grp]
+        if o != "Ok":
+            ctx.fail({"history": step[0], "map": m}, {"what": "rename_chroms raised", "outcome": o, "group": grp}, None)
+            return
+        live[grp] = (c, apply_map(names, m))
+
+    def check(extra_objs=()):
+        for grp, (c, names) in live.items():
+            new_of = dict(zip(c["names"], names))
+            lab = [new_of[b[0]] for b in c["bins"]]
+            exp = {"chromnames": names, "chromsizes": [[n, L] for n, L in zip(names, c["lengths"])], "labels": lab,
+                   "join": [[lab[i], lab[j]] for i, j, _ in c["pixels"]],
+                   "extent": {}}
+            for old, new in zip(c["names"], names):
+                rows = [i for i, b in enumerate(c["bins"]) if b[0] == old]
+                exp["extent"][new] = [rows[0], rows[-1] + 1]
+            objs = [("fresh", G.guarded(cooler.Cooler, fn + "::" + grp))] + [(t, ("Ok", o)) for t, g2, o in extra_objs if g2 == grp]
+            for t, (oc, obj) in objs:
+                if oc != "Ok":
+                    ctx.fail({"history": step[0]}, {"what": "collection cannot be opened", "group": grp, "outcome": oc}, None)
+                    continue
+                ob = observe(obj, names)
+                got = {k_: ob[k_] for k_ in ("chromnames", "chromsizes", "labels", "join", "extent")}
+                if got != exp:
+                    diff = [k_ for k_ in exp if got[k_] != exp[k_]]
+                    ctx.fail({"history": step[0], "group": grp, "object": t},
+                             {"what": "collection does not read as what is stored now", "differs": diff,
+                              "got": {k_: got[k_] for k_ in diff[:2]}, "expected": {k_: exp[k_] for k_ in diff[:2]}}, None)
+            with h5py.File(fn, "r") as h:
+                stored = [x.decode() for x in h[grp]["chroms/name"][:]]
+            if stored != names:
+                ctx.fail({"history": step[0], "group": grp}, {"what": "chroms/name on disk", "got": stored, "expected": names}, None)
+
+    def fresh_names(k, names):
+        return {old: f"{k}{i}_{rng.randrange(100)}" for i, old in enumerate(names) if rng.random() < 0.7} or {names[0]: f"{k}x"}
+
+    step = ["start"]
+    X, Y, Z = gen_cooler(rng), gen_cooler(rng), gen_cooler(rng)
+    while len(Y["names"]) == len(X["names"]):
+        Y = gen_cooler(rng)
+    while len(Z["bins"]) == len(X["bins"]) or set(Z["names"]) == set(X["names"]):
+        Z = gen_cooler(rng)
+    for c_ in (X, Y, Z):
+        c_["enc"] = "enum"
+    if G.guarded(cooler.Cooler, fn + "::/g1")[0] == "Ok":
+        ctx.fail({"history": "before the file exists"}, {"what": "a Cooler opened on a path that does not exist"}, None)
+    step[0] = "two groups created"
+    make("/g1", X, "w")
+    make("/g2", Y, "a")
+    cx, cy = cooler.Cooler(fn + "::/g1"), cooler.Cooler(fn + "::/g2")
+    check()
+    step[0] = "rename g1"
+    rename(cx, "/g1", fresh_names("a", live["/g1"][1]))
+    check([("long-lived", "/g1", cx)])
+    step[0] = "rename g2"
+    rename(cy, "/g2", fresh_names("b", live["/g2"][1]))
+    check([("long-lived", "/g2", cy)])
+    step[0] = "rename g1 again, through a fresh object"
+    rename(cooler.Cooler(fn + "::/g1"), "/g1", fresh_names("c", live["/g1"][1]))
+    check()
+    step[0] = "one map dict reused for both groups"
+    m = {live["/g1"][1][0]: "shared_one", live["/g2"][1][-1]: "shared_two"}
+    keep = dict(m)
+    rename(cx, "/g1", m)
+    rename(cy, "/g2", m)
+    if m != keep:
+        ctx.fail({"history": step[0]}, {"what": "rename_chroms modified the map it was given", "got": m, "expected": keep}, None)
+    check([("long-lived", "/g1", cx), ("long-lived", "/g2", cy)])
+    step[0] = "file overwritten: other chromosome names, other number of bins"
+    make("/g1", Z, "w")
+    if G.guarded(cooler.Cooler, fn + "::/g2")[0] == "Ok":
+        ctx.fail({"history": step[0]}, {"what": "a group of the replaced file can still be opened"}, None)
+    check()
+    step[0] = "rename after the overwrite"
+    rename(cooler.Cooler(fn + "::/g1"), "/g1", fresh_names("d", live["/g1"][1]))
+    check()
+    step[0] = "deleted and re-created at the root"
+    os.remove(fn)
+    if G.guarded(cooler.Cooler, fn)[0] == "Ok":
+        ctx.fail({"history": step[0]}, {"what": "a Cooler opened on a deleted file"}, None)
+    make("/", X, "w")
+    rename(cooler.Cooler(fn), "/", fresh_names("e", live["/"][1]))
+    check()
+    os.remove(fn)
+    ctx.case({"history": tag, "groups": [X["names"], Y["names"], Z["names"]]}, nontrivial=True, kind="history")
+
+
 def run(ctx):
     import warnings
     warnings.filterwarnings("ignore")
@@ -460,6 +568,8 @@ def run(ctx):
         ctx.compare("raw tree after renaming", case, r["dump"], G.canon_dump(G.model_dump(dump)))
         ctx.compare("same object vs reopened", case, r["same"], r["reopened"])
     run_big(ctx, d, len(cases))
+    for t in range(8 if thorough else 3):
+        history_pass(ctx, d, rng, t)
     if thorough:
         big_enum_overflow(ctx)
 
